@@ -204,8 +204,10 @@ def _index(spec):
 
 def _scalar(a, x):
     s = a["s"]
-    if s.get("as") == "t0":
-        return torch.tensor(s["v"], dtype=DT[s["dtype"]] if s.get("dtype") else x.dtype)
+    if s.get("as") in ("t0", "t1", "t11"):
+        t = torch.tensor(s["v"], dtype=DT[s["dtype"]] if s.get("dtype") else x.dtype)
+        # one-element tensors that are not 0-d (a gain or temperature buffer of shape (1,) or (1, 1))
+        return t if s["as"] == "t0" else t.reshape((1,) if s["as"] == "t1" else (1, 1))
     return s["v"]
 
 
@@ -268,7 +270,7 @@ OPS = {
     "clone": (1, lambda xs, a, u: xs[0].clone(**({"memory_format": torch.contiguous_format} if a.get("mf") else {})), "exact", "move"),
     "copy_": (2, lambda xs, a, u: xs[0].copy_(xs[1]), "exact", "move"),
     "detach": (1, lambda xs, a, u: xs[0].detach(), "exact", "move"),
-    "to_dtype": (1, lambda xs, a, u: xs[0].to(DT[a["dtype"]]), "ulp", "move"),
+    "to_dtype": (1, lambda xs, a, u: xs[0].to(DT[a["dtype"]], copy=True) if a.get("copy") else xs[0].to(DT[a["dtype"]]), "ulp", "move"),
     "to_device": (1, lambda xs, a, u: xs[0].to(device="cpu", copy=True) if a.get("copy") else xs[0].to("cpu"), "exact", "move"),
     "is_same_size": (2, lambda xs, a, u: xs[0].is_same_size(xs[1]), "exact", "move"),
     "mm": (2, lambda xs, a, u: torch.mm(xs[0], xs[1]), "accum", "contract"),
@@ -515,7 +517,7 @@ class World:
         """froot: which tensor of the *float* program this slot is a view of (views, detach and ops that
         return their argument inherit it; everything else is a new float tensor)."""
         froot = self.__dict__.setdefault("froot", {})
-        if src_slot is not None and (origin in VIEW_OPS or origin == "detach" or t is src_obj) and src_slot in froot:
+        if src_slot is not None and (origin in VIEW_OPS or origin in ("detach", "state_dict") or t is src_obj) and src_slot in froot:
             root = froot[src_slot]
         else:
             self.nroot_f = self.__dict__.get("nroot_f", 0) + 1
@@ -523,6 +525,17 @@ class World:
         self.pool[slot] = t
         self.origin[slot] = origin
         froot[slot] = root
+        # which operation made a tensor that is separate in the float program share its operand's payload memory
+        sb = self.__dict__.setdefault("shared_by", {})
+        inherited = sb.get(src_slot) if (src_slot is not None and root == froot.get(src_slot)) else None
+        sb.pop(slot, None)
+        if inherited:
+            sb[slot] = inherited  # a view of such a result shares the same memory for the same reason
+        try:
+            if src_obj is not None and is_qbytes(t) and is_qbytes(src_obj) and t is not src_obj and root != froot.get(src_slot) and t._data.untyped_storage().data_ptr() == src_obj._data.untyped_storage().data_ptr():
+                sb[slot] = origin
+        except Exception:
+            pass
 
     def op_apply(self, op, i):
         fn = op["op"]
@@ -555,6 +568,7 @@ class World:
                 return "float_invalid"
         self.step_probes(fn, op, xs, src)
         snap = self.snapshot(fn, xs) if self.prop == "C06" else None
+        self._copy_dest_slot = src[0] if src else None
         alias_exp = self.alias_expectations(fn, xs, fx, src) if self.prop == "C05" else None
         # ---- the quantized call, possibly with a fault armed
         fd = op.get("fault")
@@ -671,7 +685,9 @@ class World:
             if bool(bad.any()):
                 k = int(torch.nonzero(bad.reshape(-1))[0])
                 cause = "view_does_not_follow_its_base" if kind == "view" else "independent_result_changed_by_inplace_copy"
-                self.violate("C05", "alias", fn, {"clause": "value", "cause": cause, "made_by": str(self.origin.get(slot)), "operands": opclass(V)}, f"slot {slot} (made by {self.origin.get(slot)}, {kind} in the float program) after copy_ into slot sharing its payload: {int(bad.sum())}/{bad.numel()} elements differ from the float program; first at flat {k}: got {got.reshape(-1)[k].item()!r}, float program {want.reshape(-1)[k].item()!r}", i)
+                sb = self.__dict__.get("shared_by", {})
+                shared_by = sb.get(slot) or sb.get(self._copy_dest_slot) or "unknown"
+                self.violate("C05", "alias", fn, {"clause": "value", "cause": cause, "shared_by": shared_by if kind != "view" else None, "made_by": str(self.origin.get(slot)), "operands": opclass(V)}, f"slot {slot} (made by {self.origin.get(slot)}, {kind} in the float program) after copy_ into slot sharing its payload: {int(bad.sum())}/{bad.numel()} elements differ from the float program; first at flat {k}: got {got.reshape(-1)[k].item()!r}, float program {want.reshape(-1)[k].item()!r}", i)
 
     def step_probes(self, fn, op, xs, src):
         x = xs[0]
@@ -706,7 +722,7 @@ class World:
         if OPS[fn][0] == 0:  # cat / stack: order and repeats are immaterial
             ops = sorted(set(ops))
         if "s" in op:
-            ops.append("scalar0d" if op["s"].get("as") == "t0" else "scalar")
+            ops.append({"t0": "scalar0d", "t1": "tensor1", "t11": "tensor11"}.get(op["s"].get("as"), "scalar"))
         elif "other" in op and len(xs) == 1:
             ops.append("scalar")
         return {"operands": ",".join(ops), "clause": clause, "cause": cause, "form": op.get("form")}
@@ -865,7 +881,7 @@ class World:
             self.violate("C06", "transition", fn, {"issue": "codes_changed", "cls": snap["cls"]}, f"{fn} altered the codes / zero-point of a {snap['cls']}", i)
         # a copy is a copy: what torch defines as returning new memory (clone, deepcopy, a move to another dtype)
         # must not share its payload with the source, or a later in-place write to one alters the codes of the other
-        if fn in ("clone", "deepcopy") or (fn == "to_dtype" and DT[op["dtype"]] != snap["src"].dtype):
+        if fn in ("clone", "deepcopy") or (fn == "to_dtype" and (DT[op["dtype"]] != snap["src"].dtype or op.get("copy"))):
             try:
                 a = {t.untyped_storage().data_ptr() for n, t in R.inner_items(snap["src"])[0] if not n.endswith("_scale")}
                 b = {t.untyped_storage().data_ptr() for n, t in R.inner_items(g)[0] if not n.endswith("_scale")}
